@@ -49,7 +49,7 @@ def run(ctx, out):
         if any(f["tag"] is None for f in fields[first_tagged:]):
             continue
         tags = {f["tag"] for f in fields if f["tag"] is not None}
-        foreign_pool = [t for t in list(range(1, 255)) + [0x1f01, 0x1f7e, 0xff33] if t not in tags and t not in (0x1f, 0xff) and not any((tt >> 8) == t for tt in tags if tt > 255)]
+        foreign_pool = [t for t in list(range(0, 255)) + [0x1f01, 0x1f7e, 0xff33] if t not in tags and t not in (0x1f, 0xff) and not any((tt >> 8) == t for tt in tags if tt > 255)]
         g = V.Gen(layout, rng)
         made = 0
         tries = 0
@@ -103,8 +103,9 @@ def run(ctx, out):
             # --- a tag the type does not know, before group j
             if foreign_pool and not (s["fields"][-1]["length"] == "empty" and False):
                 for j in range(n + 1):
-                    u = rng.choice(foreign_pool)
-                    junk = (bytes([u]) if u < 256 else bytes([u >> 8, u & 255])) + bytes(rng.randrange(256) for _ in range(rng.randint(0, 5)))
+                  # the filler-looking values 00 and FE, and a random one; bare (directly followed by the next group) and with bytes behind
+                  for u, extra in [(x, e) for x in ([0x00] if 0 in foreign_pool else []) + [rng.choice(foreign_pool)] for e in (0, rng.randint(1, 5))]:
+                    junk = (bytes([u]) if u < 256 else bytes([u >> 8, u & 255])) + bytes(rng.randrange(256) for _ in range(extra))
                     seq = [x[1] for x in groups]
                     rest = junk + b"".join(seq[j:])
                     body = pos + b"".join(seq[:j]) + rest
@@ -137,6 +138,6 @@ def run(ctx, out):
                                                  "missing": "absent mandatory tagged fields are not all named (sorted) in the error",
                                                  "foreign": "an unknown tag disturbs fields already decoded / is not handed back with the bytes following it"}.get(kd, "tagged fields in a different order do not decode to the same value")})
     out.rule = (f"canonical values of the {len(structs)} types with tagged fields ({per} each): all permutations of the encoded tagged-field groups up to {max_perm} present groups (24 sampled above / after the 6th value), "
-                "a duplicate of every group at every non-adjacent position, every non-empty subset of mandatory groups removed, a foreign tag spliced in before every group. "
+                "a duplicate of every group at every non-adjacent position, every non-empty subset of mandatory groups removed, a foreign tag (00 and a random unknown number, each bare and followed by random bytes) spliced in before every group. "
                 "Expected outcomes computed from the value alone; implementation = model = expectation. non-trivial = distinct inputs")
     out.samples = [ops[0][:200], {"op": ops[len(ops)//2][:160], "impl": impl[len(ops)//2][:200], "kind": kinds[len(ops)//2]}]
